@@ -108,6 +108,34 @@ func (s *Session) replayLemma(prop string, o *Obligation) (bool, map[string]inte
 		det["note"] = "the counterexample of the standard-model lemma does not violate the bit-precise statement at this input (spurious model of the abstraction)"
 		return false, det
 	}
+	if strings.HasPrefix(lemma, "roundtrip") && isIntegerT(ki.S) && isFloatT(ki.D) {
+		// the round trip itself on the real code: fixed -> float -> fixed at the model's code
+		back := pick(isSignedT(ki.S), "FloatAsSigned", "FloatAsUnsigned")
+		sT, dT := goTypeName(ki.S), goTypeName(ki.D)
+		inLit, ok := u.goLitNum(ki.S, smtValueOf(x))
+		if !ok {
+			det["note"] = "could not render the model value as a Go literal"
+			return false, det
+		}
+		within := strings.Contains(lemma, "within-one")
+		var sb strings.Builder
+		sb.WriteString("package signal\n\nimport (\n\t\"fmt\"\n\t\"testing\"\n)\n\nfunc TestVerifReplay(t *testing.T) {\n")
+		fmt.Fprintf(&sb, "\tsrc := Alloc[%s](Allocator{Channels: 1, Length: 1, Capacity: 1})\n\tmid := Alloc[%s](Allocator{Channels: 1, Length: 1, Capacity: 1})\n\tdst := Alloc[%s](Allocator{Channels: 1, Length: 1, Capacity: 1})\n", sT, dT, sT)
+		fmt.Fprintf(&sb, "\tsrc.SetSample(0, %s)\n\t%s(src, mid)\n\t%s(mid, dst)\n\tx, f, r := src.Sample(0), mid.Sample(0), dst.Sample(0)\n", inLit, key, back)
+		sb.WriteString("\tfmt.Printf(\"REPLAY-SAMPLE in=%v float=%v back=%v\\n\", x, f, r)\n")
+		if within {
+			sb.WriteString("\tbad := int64(r)-int64(x) > 1 || int64(x)-int64(r) > 1\n")
+		} else {
+			sb.WriteString("\tbad := r != x\n")
+		}
+		fmt.Fprintf(&sb, "\tif bad {\n\t\tfmt.Println(\"REPLAY-CONFIRMED: %s then %s does not return the original sample\")\n\t} else {\n\t\tfmt.Println(\"REPLAY-MISMATCH: the real round trip returns the original sample at the model input\")\n\t}\n}\n", key, back)
+		src := sb.String()
+		det["test_source"] = src
+		det["test_name"] = "TestVerifReplay"
+		out, _ := runOverlayTest(src, "TestVerifReplay")
+		det["test_output"] = truncate(out, 3000)
+		return strings.Contains(out, "REPLAY-CONFIRMED"), det
+	}
 	// kernel fidelity at the counterexample: real code output == K(x)
 	ctx := NewCtx()
 	terms := []*Term{ki.apply(x)}
